@@ -2,7 +2,7 @@
 # confirm_seed.sh <PROP> <n>: in the sub-agent's scratch worktree /tmp/mut/<PROP>, confirm that patch <n>
 #  (1) applies, compiles and passes the whole existing suite, (2) makes its demonstration fail, (3) the demonstration passes without it
 set -u
-P=$1; N=$2; W=/tmp/mut/$P; O=$W/out/$N
+P=$1; N=$2; W=${MUTROOT:-/tmp/mut}/$P; O=$W/out/$N
 cd $W && git checkout -q -- . && rm -f tests/demo_seed.rs
 export CARGO_TARGET_DIR=$W/target CARGO_NET_OFFLINE=true
 demo=$(ls $O/*.rs | head -1)
